@@ -34,6 +34,10 @@ pub(crate) struct SubSocketBackend {
     socket_options: SocketOptions,
     pub(crate) socket_monitor: Mutex<Option<mpsc::Sender<SocketEvent>>>,
     subs: Mutex<HashSet<String>>,
+    /// Serialises "change the set and tell every registered peer" against
+    /// "tell a new peer the set and register it", so that no peer misses or
+    /// doubles a subscription that changes while it joins.
+    subs_update: futures::lock::Mutex<()>,
 }
 
 impl SubSocketBackend {
@@ -50,6 +54,7 @@ impl SubSocketBackend {
             socket_options: options,
             socket_monitor: Mutex::new(None),
             subs: Mutex::new(HashSet::new()),
+            subs_update: futures::lock::Mutex::new(()),
         }
     }
 
@@ -85,6 +90,7 @@ impl MultiPeerBackend for SubSocketBackend {
     async fn peer_connected(self: Arc<Self>, peer_id: &PeerIdentity, io: FramedIo) {
         let (recv_queue, mut send_queue) = io.into_parts();
 
+        let _update_guard = self.subs_update.lock().await;
         let subs_msgs: Vec<ZmqMessage> = self
             .subs
             .lock()
@@ -136,6 +142,8 @@ impl Drop for SubSocket {
 
 impl SubSocket {
     pub async fn subscribe(&mut self, subscription: &str) -> ZmqResult<()> {
+        let backend = self.backend.clone();
+        let _update_guard = backend.subs_update.lock().await;
         self.backend.subs.lock().insert(subscription.to_string());
         #[cfg(feature = "verif-hooks")]
         crate::verif_hooks::yield_point("sub.subscribe.after_set_update").await;
@@ -144,6 +152,8 @@ impl SubSocket {
     }
 
     pub async fn unsubscribe(&mut self, subscription: &str) -> ZmqResult<()> {
+        let backend = self.backend.clone();
+        let _update_guard = backend.subs_update.lock().await;
         self.backend.subs.lock().remove(subscription);
         #[cfg(feature = "verif-hooks")]
         crate::verif_hooks::yield_point("sub.unsubscribe.after_set_update").await;
